@@ -317,8 +317,16 @@ def _poke(ctx: Ctx, ev: dict) -> None:
             conn = cli._connection
             w.rec("op_start", actor="poke", i=-1, do="force_disconnect", args={"has_conn": conn is not None})
             _rec_disc(ctx, cli, True)
-            if conn is not None:
-                conn.force_disconnect()
+            # the public API: APIClient.disconnect(force=True) has no await on the force path,
+            # so the coroutine is driven to completion synchronously inside this callback
+            coro = cli.disconnect(force=True)
+            try:
+                coro.send(None)
+            except StopIteration:
+                pass
+            else:
+                coro.close()
+                raise HarnessError("disconnect(force=True) suspended")
             w.rec("op_end", actor="poke", i=-1, do="force_disconnect", ok=True, value=None)
         elif what == "conn.force_disconnect":
             conn = ctx.conn_objs[ev.get("target", "k0")]
